@@ -121,6 +121,12 @@ def scenarios():
         SC("rekeep-same-code", [k("/c6/p", "s_text")], k("/c6/p", "s_text"), {("/c6/p", "data"): [E["s_text"]]}, {("/c6/p", "data"): E["s_text"]}),
         SC("cold-first-keep-frame-parquet", [], k("/c6/frame", "s_frame"), {}, {("/c6/frame", "data"): scen.frame_value()}),
         SC("rekeep-changed-code-with-object-cache", [k("/c6/p", "s_text", cache=2)], k("/c6/p", "s_text_v2", cache=2), {("/c6/p", "data"): [E["s_text"]]}, {("/c6/p", "data"): E["s_text_v2"]}),
+        # a store written by an early release (metadata without timestamp) is only read: served results, loads
+        SC("served-from-old-format-store", [k("/c6/p", "s_text"), scen.act_old_format_metadata()], k("/c6/p", "s_text"), {("/c6/p", "data"): [E["s_text"]]}, {("/c6/p", "data"): E["s_text"]}),
+        SC("nested-eval-served-from-old-format-store", [scen.act_eval_top(), scen.act_old_format_metadata()], scen.act_eval_top(),
+           {("/shared/dir/leaf_a", "data"): [E["n_leaf_a"]], ("/shared/dir/mid", "data"): [E["n_mid"]]},
+           {("/shared/dir/leaf_a", "data"): E["n_leaf_a"], ("/shared/dir/leaf_b", "data"): E["n_leaf_b"], ("/shared/dir/mid", "data"): E["n_mid"]}),
+        SC("load-from-old-format-store", [k("/c6/p", "s_obj"), scen.act_old_format_metadata()], scen.act_load("/c6/p"), {("/c6/p", "data"): [E["s_obj"]]}, {("/c6/p", "data"): E["s_obj"]}),
         # the evaluated function is itself kept under a path and keeps other paths inside (4 links committed by one evaluation)
         SC("nested-keep-top-cold", [], k("/shared/dir/top", "n_top"), {},
            {("/shared/dir/top", "data"): E["n_top"], ("/shared/dir/leaf_a", "data"): E["n_leaf_a"], ("/shared/dir/leaf_b", "data"): E["n_leaf_b"], ("/shared/dir/mid", "data"): E["n_mid"]}),
@@ -441,7 +447,7 @@ def run(tier, seed):
     results = core.fork_map(scenario_job, jobs, timeout=3000)
     if tier != "thorough":
         # real kills of a real interpreter (no shim: the kernel's and Python's own buffering) on two scenarios, rotating with the seed
-        picks = sorted(set([0, (4 + seed) % len(scs), len(scs) - 2]))
+        picks = sorted(set([0, (4 + seed) % 14, [i for i, x in enumerate(scs) if x["name"] == "nested-keep-top-cold"][0]]))
         ex = core.fork_map(strace_job, picks, timeout=1500)
         for i, r in zip(picks, ex):
             if isinstance(r, core.JobFailed):
